@@ -180,7 +180,7 @@ def execute(case):
     }
 
 
-EDIT_WEIGHTS = {"set": 12, "pset": 2, "tset": 1, "cell": 2, "link": 1.5, "embed": 2, "mod": 0.5, "pat": 0.5}
+EDIT_WEIGHTS = {"set": 12, "pset": 2, "tset": 1, "cell": 2, "link": 1.5, "embed": 2, "mod": 0.5, "pat": 0.5, "bad": 1.0}
 
 
 def gen_edit(r):
